@@ -10,11 +10,6 @@ package verifspec
 
 //@ pure chain(l int, s int) int
 
-//@ extern compiler/linkname.GoLinknameSet.Add
-//@   param gls entries
-//@   assigns gls.byImplementation, gls.byReference
-//@   ghost glsAdded = glsAdded + 1
-
 //@ extern compiler/internal/dce.Selector.Include
 //@   param s decl implementsLink
 
@@ -64,6 +59,7 @@ package verifspec
 //@   oncall Include: assert glsAdded == len(pkgs)
 //@   oncall Include: assert a1 == has(gls.byImplementation, a0.LinkingName)
 //@   oncall Add: assert samearr(a0, pkgs[glsAdded].GoLinknames) && len(a0) == len(pkgs[glsAdded].GoLinknames)
+//@   oncall Add: ghost glsAdded = glsAdded + 1
 //@   loop 4 assigns w.line, w.column, out(w.Writer)
 //@   loop 4 invariant 0 <= $i4 && $i4 <= 8 && 0 <= w.line && w.line <= old(w.line) + $i4 * 281474976710656 && 0 <= w.column && w.column <= old(w.column) + $i4 * 281474976710656
 //@   loop 4 invariant log == chain(chain(0, str("\"use strict\";\n(function() {\n\n")), str("var $goVersion = %q;\n")) && nw == 0
